@@ -21,6 +21,18 @@ PROPS = {
         "exhaustive_note": "the small-alphabet sender pairs and the receiver token-list pool are enumerated completely; large files are sampled",
         "label": "full on the model; window reads (mapStruct) covered by correspondence only",
     },
+    "C16": {
+        "components": ["edits", "sender"],
+        "trusted_base": [KERNEL, EXTRACT, HARNESSTB, GEN, MD4NOTE,
+                         "modelled, not verified: window reads (mapStruct.ptr) abstracted to slices; sort order among identical blocks abstracted"],
+        "assumptions": [
+            "edit_bound (literal <= edited + 2*blen*(e+1)) is NOT a theorem: it is checked by the harness oracle on the real sender only; rolling_invariant, no_false_negative, identical_costs_nothing and sender_total are theorems",
+            "high-entropy data: coincidental strong-sum matches do not occur, so the bound has no slack for them",
+        ],
+        "rule": "edits: high-entropy files 0.1-3 MiB (quick) / up to 33 MiB (thorough), 0..6 insert/delete/replace/prepend/append edits of up to 20000 bytes at arbitrary offsets, identical files, a prepended weak-checksum collision of block 0; generator block length and foreign ones 700..65536; oracle = literal bytes <= edited + 2*blen*(e+1), identical => 0; targets up to 3 MiB are also compared token-for-token with the model. plus the C02 sender correspondence. non-trivial = stream with both literals and references",
+        "exhaustive": False,
+        "label": "partial: edit_bound not proved (oracle only); the other three headline statements are theorems",
+    },
     "C03": {
         "components": ["faults", "recv"],
         "trusted_base": [KERNEL, EXTRACT, HARNESSTB, GEN, MD4NOTE,
